@@ -52,6 +52,15 @@ def run (args : List String) : Option String :=
   | ["full", n, s] => do
     let n ← parseInt? n; let s ← parsePIdx? s
     pure (fmtBool (sliceFull s n))
+  | ["fullnd", shape, ss] => do
+    let shape ← parseList? parseInt? shape; let ss ← parseList? parsePIdx? ss
+    pure (fmtBool (roiIsFull ss shape))
+  | ["normnd", shape, ss] => do
+    let shape ← parseList? parseInt? shape; let ss ← parseList? parsePIdx? ss
+    pure (fmtList fmtNS (roiNormalise ss shape))
+  | ["padnd", shape, pad, ss] => do
+    let shape ← parseList? parseInt? shape; let pad ← parseInt? pad; let ss ← parseList? parsePIdx? ss
+    pure (fmtList fmtNS (roiPad ss pad shape))
   | ["center", s] => do
     let s ← parsePIdx? s
     pure (fmtRes fmtRat (sliceCenter s))
